@@ -58,7 +58,7 @@ def scopes(chk):
                          'VerbNames': [], 'Leaves': [], 'EnvNames': [], 'CmdNames': ['a'], 'MaxSib': 3, 'MaxDepth': 3, 'MaxArgs': 1}))
     # definitions whose body holds an unbalanced \\begin / \\end, with and without [n] and starred
     sc.append(('defs', {'Budget': 3, 'TextPool': ['a', ' '], 'ComPool': [], 'MathKinds': ['$'], 'MEnvNames': [], 'VerbNames': [], 'ListNames': [],
-                        'Leaves': D.DEF_LEAVES, 'MaxSib': 3}))
+                        'Leaves': D.DEF_LEAVES, 'MaxSib': 3, 'CmdNames': ['a', 'nm'], 'MaxArgs': 2}))
     # a user-supplied skip_envs extends the built-in verbatim-like names, it does not replace them
     sc.append(('userskip', {'Budget': 3, 'UserSkipG': ['myverb'], 'VerbNames': ['verbatim', 'lstlisting', 'myverb'], 'VerbBodies': [' $ { ', '\n\\a {x}\n', '100%\nz', 'T \\end{ x', '\\end{$}'],
                             'TextPool': ['t', ' '], 'ComPool': [], 'MathKinds': [], 'MEnvNames': [], 'Leaves': [], 'ListNames': [], 'MaxSib': 2}))
